@@ -118,7 +118,9 @@ def check_c14(tier):
     mc = iter_design(tier)
     chunks, events = (16, 1500) if tier == "quick" else (64, 6000)
     viol, tv, samples = traces(prop, "TraceIter.tla", "TraceIter.cfg", [("iter", chunks, events)], seed, "iterator")
-    cov = coverage([mc], tv, {"samples": samples, "design_model": "MCIter: MoveGenImpl (entry list, cursor, partition) refines MoveGenIter over every call sequence"})
+    proofs = run_tlaps("proofs/IterProofs.tla")
+    cov = coverage([mc], tv, {"samples": samples, "design_model": "MCIter: MoveGenImpl (entry list, cursor, partition) refines MoveGenIter over every call sequence",
+                              "tlaps": proofs})
     return C.finish(prop, tier, "model_checking", viol, cov,
                     ["the base set of a script is what a plain full iteration of the same position yields (legality itself is C01)",
                      "MCIter checks the design (MoveGenImpl) against the contract; the code is bound to the contract by TraceIter"], t0)
